@@ -321,7 +321,9 @@ prop("C05", engine="e4", rule=(
 prop("C06", engine="e1", rule=(
     "random registries x 2..5 random permutations of class-record, method "
     "and definition registration orders (all permutations for one case in "
-    "six, drawn with <= 3 classes, <= 2 methods, <= 3 definitions each); "
+    "six, drawn with <= 3 classes, <= 2 methods, <= 3 definitions each; "
+    "one sampled case in three presents the graph through split / partial "
+    "/ redundant records per class, whose order is permuted too); "
     "metamorphic oracle: dispatch of every tuple and next of every "
     "definition equal across orders; non-trivial = a non-identity "
     "permutation and a tuple with >= 3 applicable definitions"),
@@ -429,7 +431,10 @@ prop("C20", engine=None, program="c20", rule=(
     "same signature whose definitions inherit fn from a method-independent "
     "base); static_asserts on the size and order of product<> and whole-"
     "list static_asserts of apply_product, transform_product and product on "
-    "small lists; at run time the method's catalog must "
+    "small lists whose elements are arbitrary types (classes, references, "
+    "pointers, fundamental types, template instantiations, template_<>, "
+    "nested and empty type lists), plus a second method whose definition "
+    "template takes a list of tags as one argument; at run time the method's catalog must "
     "hold exactly one definition per defined combination, every defined "
     "combination called with its exact classes must run its own definition "
     "and every other combination must be reported as not implemented; a "
@@ -461,11 +466,16 @@ prop("C13", engine="e1", program="c13", rule=(
     "real decode_dispatch_data under ASan in a state emulating a fresh "
     "process; afterwards every tuple dispatches as the model says and as "
     "before encoding; non-trivial = a class whose v-table does not start at "
-    "slot 0 or has no entries, and a multi-method. Compile tier: generated "
+    "slot 0 or has no entries, and a multi-method; half of the registries "
+    "have several records per class, configurations with direct and "
+    "indirect v-table pointers; a hash search failure inside the decoder is "
+    "a failure. Compile tier: generated "
     "two-stage programs (random class DAG, possibly in namespaces, methods "
     "of arity 1..3, debug or release policy): stage A updates, records every "
     "tuple's outcome and writes forward declarations + static offsets + "
-    "encoded tables; stage B is the same registry compiled with the "
+    "encoded tables (some classes registered a second time; generated "
+    "offsets included ahead of everything or after the method "
+    "declarations); stage B is the same registry compiled with the "
     "generated files by g++ and by clang++, decodes instead of updating and "
     "must reproduce the record"),
     quick=dict(cases=4000, size=60), thorough=dict(cases=30000, size=100))
@@ -478,7 +488,11 @@ prop("C14", engine="e1", rule=(
     "of every other settled policy (dispatch of every tuple, next, "
     "dispatch_data address/size/content, hash parameters and control "
     "table, v-table lookups, live virtual_ptrs, which handler a provoked "
-    "error reaches) must be unchanged; non-trivial = an update of B between "
+    "error reaches) must be unchanged; one error_call in three adds a forked "
+    "probe: the policy is put back on the library's default handlers, every "
+    "other policy and the default policy get marker handlers, and an "
+    "unresolvable call must end in abort() without entering any of them; "
+    "non-trivial = an update of B between "
     "two observations of A. Plus the catalogs engine (see C18): real "
     "class_declaration (pack and type-list forms) / method / definition "
     "objects of one policy constructed and destroyed at random while the "
@@ -496,7 +510,9 @@ prop("C15", engine="e1", program="c15", rule=(
     "argument at any position through a reference or a virtual_ptr built "
     "from a base reference (the call must report unknown_class with its id, "
     "exactly once, no body runs; once per case also in a forked child whose "
-    "handler returns, which must abort); typed universe: per-class records "
+    "handler returns, which must abort; in a third of the dynamic cases the "
+    "class was registered for a first update and its records removed before "
+    "a second one); typed universe: per-class records "
     "(pack or type-list form) with one class omitted, every route, and "
     "final / virtual_shared_ptr::final given another dynamic type; checked "
     "configurations only. Third generator (programs of two translation "
